@@ -74,7 +74,7 @@ fn parse_failed_len(e: &encode::Error) -> usize {
 // flag byte, full range, on the smallest transaction
 // ---------------------------------------------------------------------------------------------------------------
 
-//@ harness: tx_dec_0x0 class=F tier=quick bound="0 inputs, 0 outputs"
+//@ harness: tx_dec_0x0 class=F tier=thorough bound="0 inputs, 0 outputs" timeout=3000
 //@ clause: Transaction decode, flag byte over its full range on the input/output-less transaction: flag 0 -> accepted, 11 bytes, no witness; flag 1 -> rejected "witness flag set but no witnesses were given" (there is nothing that could carry a witness); any other flag -> rejected "bad witness flag in tx"; re-encoding reproduces the bytes with flag == has_witness(); a 10-byte truncation is rejected
 #[kani::proof]
 #[kani::unwind(3)]
